@@ -441,6 +441,15 @@ func (x *actorSystem) authenticateLocalWorkPullingWorker(sender *PID, producerNa
 		return nil, "", err
 	}
 
+	// the companion starts (and may register from its PostStart) before it is
+	// attached to the actor tree; a binding accepted in that window is watched
+	// through a node that does not exist yet, so the producer never learns of
+	// the worker's death. Refuse until it is attached: the worker's next tick
+	// registers again.
+	if cnode, ok := x.actors.nodeByName(sender.Name()); !ok || cnode.value() != sender {
+		return nil, "", fmt.Errorf("%w: companion=%s is not attached to the actor tree yet", errReliableCompanionUnavailable, sender.Name())
+	}
+
 	consumer := endpoint.reliableDelivery
 	if consumer == nil || consumer.consumer == nil || consumer.consumer.producerName != producerName {
 		return nil, "", fmt.Errorf("%w: worker endpoint=%s does not name producer=%s", errReliableCompanionUnavailable, spec.endpointName, producerName)
